@@ -2,6 +2,7 @@
 import copy
 import random
 
+import clientmodel
 import domlib
 import viewgen
 import vlib
@@ -331,6 +332,27 @@ def main(argv):
         return chk.finish()
     orfail = evaluate(chk, cases, impl, lines)
     dist = {}
+    # correspondence with the instance-tree model Dom/Client.v (views on which known findings F9 / F15 apply are outside the model)
+    mism = []
+    sel = [i for i, c in enumerate(cases) if not has_toplevel_dynamic_child(c[1]) and not has_toplevel_nossr(c[1]) and not impl[i][0].startswith("PANIC")]
+    okm, outm = vlib.coq_make(["theories/Dom/ClientShow.vo"])
+    chk.obligation("coq build theories/Dom/ClientShow.vo (client model)", okm, outm)
+    model = None
+    if okm:
+        try:
+            model = clientmodel.run_model(PID, [cases[i] for i in sel])
+        except RuntimeError as e:
+            chk.obligation("model evaluation (Dom/Client.v)", False, str(e)[-800:])
+    if model is not None:
+        for i, mo in zip(sel, model):
+            dumps = [dict(p.split(" ", 1) if " " in p else (p, "") for p in l.split(" ; "))["nodes"] for l in impl[i]]
+            d = clientmodel.compare(dumps, mo)
+            if d:
+                d["scenario"] = lines[i]
+                mism.append(d)
+        chk.traces = len(sel)
+    chk.obligation("correspondence: Dom/Client.v = the real client back end on %d scenarios (structure and which nodes survive each write)" % len(sel),
+                   model is not None and not mism, str(mism[:1]))
     findings = {f["key"]: f for f in vlib.load_findings(PID)}
     real = []
     for o in orfail:
@@ -350,6 +372,10 @@ def main(argv):
     if orfail:
         orfail.sort(key=lambda o: len(o.get("scenario", "")))
         chk.violation({"property": PID, "kind": "oracle failure on implementation output", "input": orfail[0], "count": len(orfail)})
+    elif mism or model is None:
+        mism.sort(key=lambda o: len(o.get("scenario", "")))
+        chk.violation({"property": PID, "kind": "proof/correspondence broken, oracle clean on all inputs explored",
+                       "mismatches": mism[:3], "mismatch_count": len(mism)}, no_input=True)
     return chk.finish()
 
 
